@@ -20,6 +20,23 @@ class SqlWatch(object):
         event.listen(engine, 'begin', self._begin)
         event.listen(engine, 'commit', self._commit)
         event.listen(engine, 'rollback', self._rollback)
+        # Injection points *inside* SQLAlchemy's DBAPI error handling, so
+        # that an injected driver error is wrapped and filtered (oslo.db)
+        # exactly like a real one: the before_* events above run outside it.
+        self.inject_next = None
+        event.listen(engine, 'do_execute', self._do_execute)
+        event.listen(engine, 'do_executemany', self._do_execute)
+        event.listen(engine, 'do_execute_no_params', self._do_execute3)
+        d = engine.dialect
+        if not getattr(d, '_pv_patched', False):
+            for name in ('do_begin', 'do_commit', 'do_rollback'):
+                orig = getattr(d, name)
+
+                def wrapper(dbapi_connection, _orig=orig, _w=self):
+                    _w._raise_pending()
+                    return _orig(dbapi_connection)
+                setattr(d, name, wrapper)
+            d._pv_patched = True
 
     def start(self, hook=None):
         self.events = []
@@ -30,6 +47,18 @@ class SqlWatch(object):
         self.armed = False
         self.hook = None
         return self.events
+
+    def _raise_pending(self):
+        exc = self.inject_next
+        if exc is not None:
+            self.inject_next = None
+            raise exc
+
+    def _do_execute(self, cursor, statement, parameters, context):
+        self._raise_pending()
+
+    def _do_execute3(self, cursor, statement, context):
+        self._raise_pending()
 
     def _emit(self, kind, text, params, conn, phase='before'):
         if not self.armed:
